@@ -30,6 +30,8 @@ type Config struct {
 	B []uint32 `json:"b"`
 	// SameID: every rule carries the same non-empty ID (an ID is a label, not a key)
 	SameID bool `json:"same_id,omitempty"`
+	// AtEpoch: the (virtual) clock reads 0 ms throughout: in-flight counting does not depend on the time
+	AtEpoch bool `json:"clock_at_zero,omitempty"`
 }
 
 func (c Config) String() string { b, _ := json.Marshal(c); return string(b) }
@@ -76,7 +78,11 @@ func (s *scen) Enabled(i int) bool {
 }
 
 func (s *scen) Reset() {
-	env.ResetAll(env.DefaultGeometry, 1700000000000)
+	if s.cfg.AtEpoch {
+		env.ResetAll(env.DefaultGeometry, 0)
+	} else {
+		env.ResetAll(env.DefaultGeometry, 1700000000000)
+	}
 	s.rules = map[string][]*isolation.Rule{}
 	var all []*isolation.Rule
 	for i, n := range s.cfg.A {
@@ -240,6 +246,7 @@ func configs() []Config {
 		{A: []uint32{2}, B: []uint32{1}}, {A: []uint32{3, 2}}, {A: []uint32{2, 3}}, {A: []uint32{1, 3}, B: []uint32{2}},
 		{A: []uint32{1<<32 - 1}},
 		{A: []uint32{2, 3}, SameID: true}, {A: []uint32{1, 3}, B: []uint32{2}, SameID: true},
+		{A: []uint32{2}, B: []uint32{1}, AtEpoch: true},
 	}
 }
 
